@@ -210,13 +210,13 @@ def rhs_kind(b):
     return ('c' if np.iscomplexobj(b) else 'r') + ('blk' if b.ndim == 2 else 'vec')
 
 
-def fresh_single_call(case, A, b, tr, flags):
+def fresh_single_call(case, A, b, tr, flags, x0=None):
     """Outcome of the same single call on a fresh wrapper: 'ok', 'bad' (wrong answer) or 'raises'."""
     from pymoto.solvers import LDAWrapper
     try:
         w2 = LDAWrapper(make_inner(case['inner']), **flags)
         w2.update(storage(A, case['inner']))
-        x = np.asarray(w2.solve(b.copy(), trans=tr))
+        x = np.asarray(w2.solve(b.copy(), trans=tr) if x0 is None else w2.solve(b.copy(), x0=x0.copy(), trans=tr))
         if x.shape != b.shape or not rel_residual(A, x, b, tr) <= 2 * w2.tol:
             return 'bad'
         return 'ok'
@@ -231,6 +231,8 @@ def cause(case, seq, k, A, b, tr, flags, fresh):
     before = seq[:k]
     last_upd = max([i for i, o in enumerate(before) if o[0] == 'U'], default=-1)
     since = [o for o in before[last_upd + 1:] if o[0] == 'S']
+    if len(seq[k]) > 3 and since:
+        return 'initial_guess_with_nonempty_database'
     if last_upd >= 0 and before[last_upd][1].startswith('class'):
         return 'after_update_to_other_class'
     if any(o[1] in ('blkdep', 'blksum') for o in since):
@@ -261,9 +263,12 @@ def run_sequence(case, seq):
     nsolve = 0
     tag = []
 
+    last_x = [None]
+    cur_x0 = [None]
+
     def viol(check, k, b, tr, fresh=None, **detail):
         if fresh is None:
-            fresh = fresh_single_call(case, A, b, tr, flags)
+            fresh = fresh_single_call(case, A, b, tr, flags, cur_x0[0])
         sig = {'check': check, 'cause': cause(case, seq, k, A, b, tr, flags, fresh),
                'trans': 'N' if tr == 'N' else 'T/H'}
         detail.update(seq=seq, step=k, matrix=A, rhs=b, trans=tr, matrix_class=mat_class(A))
@@ -283,16 +288,22 @@ def run_sequence(case, seq):
             w.update(Ain)
             model.update(A)
             continue
-        _, rn, tr = op
+        rn, tr = op[1], op[2]
         b = rhs(rn, t)
         b_in = b.copy()
+        x0 = None
+        if len(op) > 3:      # initial guess: zeros, or the previous answer where the shapes agree
+            x0 = np.zeros(b.shape, dtype=np.result_type(A, b))
+            if op[3] == 'x0prev' and last_x[0] is not None and last_x[0].shape == b.shape:
+                x0 = last_x[0].astype(x0.dtype)
+        cur_x0[0] = x0
         A_before = np.array(Ain.todense()) if hasattr(Ain, 'todense') else Ain.copy()
         demand = model.must_reuse(tr, b)
         calls0 = inner.calls
         try:
-            x = w.solve(b_in, trans=tr)
+            x = w.solve(b_in, trans=tr) if x0 is None else w.solve(b_in, x0=x0.copy(), trans=tr)
         except Exception as e:  # noqa
-            fresh = fresh_single_call(case, A, b, tr, flags)
+            fresh = fresh_single_call(case, A, b, tr, flags, x0)
             if fresh == 'raises':
                 return k + 1, None, 'unsupported', False   # the single call is not supported at all: no demand
             n_, v, tg, nt = viol('raises_where_fresh_succeeds', k, b, tr, fresh=fresh, error=str(e)[:300])
@@ -315,6 +326,7 @@ def run_sequence(case, seq):
         if demand == 'yes' and used > 0:
             return viol('no_reuse', k, b, tr, fresh='ok', inner_calls=used)
         tag.append(('R' if used == 0 else 'I') + demand[0])
+        last_x[0] = x
         model.record(tr, b)
     nontrivial = nsolve >= 2 and len(rs.decoupled_dofs(matrix(name, t))) < N
     return len(seq), None, ''.join(tag), nontrivial
@@ -326,6 +338,10 @@ def expand(shape, rhs_names, name):
     for s in shape:
         if s == 'S':
             choices.append(solve_ops(rhs_names))
+        elif s == 's':
+            choices.append(solve_ops(RHS_SMALL))
+        elif s == 'X':
+            choices.append([o + [g] for o in solve_ops(rhs_names) for g in ('x0zero', 'x0prev')])
         else:
             choices.append([['U', k] for k in UPD])
     return [list(c) for c in itertools.product(*choices)]
@@ -361,7 +377,7 @@ def execute(case):
 def bounds(tier, seed):
     if tier == 'quick':
         return {'n': 3, 'matrices': 152, 'rhs': len(RHS_FULL), 'modes': 3,
-                'histories': '[S], [S,S] over the full alphabet; [S,U,S] with 4 update kinds, first solve from the 6-entry alphabet', 'inner': ['ref', 'lu(diagonal-free subset)'],
+                'histories': '[S], [S,S] over the full 12-entry rhs alphabet; [S,U,S] with 4 update kinds and [S, S with initial guess (zeros | previous answer)] over the 6-entry alphabet', 'inner': ['ref', 'lu(diagonal-free subset)'],
                 'table': seed % len(VALS)}
     return {'n': 3, 'matrices': 152, 'rhs': len(RHS_FULL), 'modes': 3,
             'histories': 'levels in this order: depth2 (ref, LU subset); [S,S,S]; [S,U,S,S],[S,S,U,S] on the reduced rhs '
@@ -379,8 +395,8 @@ def generate(tier, seed):
         for nm in mats:
             for op1 in first:
                 tails = [[], ['S'], ['U', 'S']]
-                if tier == 'quick' and tuple(op1) not in small_first:
-                    tails = [[], ['S']]
+                if tier == 'quick':
+                    tails = [[], ['S'], ['U', 's']] if tuple(op1) in small_first else [[], ['S']]
                 yield {'mat': nm, 'table': t, 'inner': inner, 'flags': flags, 'prefix': [op1],
                        'tails': tails, 'rhs_alphabet': RHS_FULL}
 
@@ -389,6 +405,13 @@ def generate(tier, seed):
     sub = [nm for nm in names if nm.count('1') in (0, 2, 3, 6) and nm[:2] in ('r0', 'r1', 'c1', 'rs', 'ch', 'cs')][:24]
     yield {'__level__': 'depth2/lu-subset'}
     yield from level_depth2('lu', 'none', sub)
+    yield {'__level__': 'depth2/initial-guess'}
+    guess_mats = names if tier != 'quick' else [nm for nm in names if nm.count('1') in (0, 1, 3, 6) or nm[:2] in ('rs', 'ch', 'cs')]
+    for inner in ('ref', 'lu'):
+        for nm in (guess_mats if inner == 'ref' else sub):
+            for op1 in solve_ops(RHS_SMALL):
+                yield {'mat': nm, 'table': t, 'inner': inner, 'flags': 'none', 'prefix': [op1],
+                       'tails': [['X']], 'rhs_alphabet': RHS_SMALL}
     if tier == 'quick':
         return
     yield {'__level__': 'depth3/SSS/ref', 'count': len(names) * len(first)}
